@@ -148,6 +148,20 @@ def _normalize_value_for_ast(value: Any) -> Any:
     return value
 
 
+def _normalize_field_value_for_ast(value: Any) -> Any:
+    """Normalize a value that becomes a whole field value (changes / mutations).
+
+    The reader represents ``KEY::[a::1,b::2]`` as a list of single-pair inline maps and the
+    emitter lays such a list out one pair per line. An object value is therefore stored in that
+    shape, so that the file written for it is already canonical instead of changing again on
+    the next normalization.
+    """
+    normalized = _normalize_value_for_ast(value)
+    if isinstance(normalized, InlineMap):
+        return ListValue(items=[InlineMap(pairs={k: v}) for k, v in normalized.pairs.items()])
+    return normalized
+
+
 # GH#263: Regex pattern for detecting NAME{qualifier} curly-brace annotations
 # Matches: identifier characters followed by {qualifier_chars}
 # The identifier pattern mirrors _is_valid_identifier_start/char from lexer.py
@@ -931,7 +945,7 @@ class WriteTool(BaseTool):
                     # Update or add field in doc.meta
                     # I1 (Syntactic Fidelity): Normalize Python values to AST types
                     # Without this, Python lists emit as "['a', 'b']" instead of "[a,b]"
-                    doc.meta[field_name] = _normalize_value_for_ast(new_value)
+                    doc.meta[field_name] = _normalize_field_value_for_ast(new_value)
             elif key == "META" and isinstance(new_value, dict):
                 if _is_delete_sentinel(new_value):
                     # DELETE sentinel on META clears the entire block
@@ -948,14 +962,14 @@ class WriteTool(BaseTool):
                             doc.meta.pop(mk, None)
                         else:
                             # I1 (Syntactic Fidelity): Normalize values for AST
-                            doc.meta[mk] = _normalize_value_for_ast(mv)
+                            doc.meta[mk] = _normalize_field_value_for_ast(mv)
             elif _is_delete_sentinel(new_value):
                 # I2: DELETE sentinel - remove field entirely from sections
                 doc.sections = [s for s in doc.sections if not (isinstance(s, Assignment) and s.key == key)]
             else:
                 # Update or set to null in sections
                 # I1 (Syntactic Fidelity): Normalize Python values to AST types
-                normalized_value = _normalize_value_for_ast(new_value)
+                normalized_value = _normalize_field_value_for_ast(new_value)
                 found = False
                 for section in doc.sections:
                     if isinstance(section, Assignment) and section.key == key:
@@ -990,7 +1004,7 @@ class WriteTool(BaseTool):
             if _is_delete_sentinel(value):
                 doc.meta.pop(key, None)
                 continue
-            doc.meta[key] = _normalize_value_for_ast(value)
+            doc.meta[key] = _normalize_field_value_for_ast(value)
 
     def _generate_diff(
         self,
